@@ -57,7 +57,7 @@ claimed = {
  "C15": dict(text="Bounded model checking of address coding: Base58 encode->decode for payloads of 0..3 and 25 bytes and decode->encode / alphabet refusal for strings of 1..2 characters; segwit address coding: encode->decode identity for every witness version / legal program length / program; refusal of illegal destinations; "
                   "decode->re-encode identity and BIP173/BIP350 rule conformance for every string of the tier's lengths (checksum reasoning by GF(2) elimination in the engine, everything else by z3).",
              ref="6/C15", note=NOTE + "The BCH checksum constraint is kept in solved form by the engine's GF(2) elimination; models are still produced and checked by the solver. "),
- "C09": dict(text="Bounded model checking of the wire codecs: CompactSize family over all uint64 / all byte strings up to 9 bytes; NewTx on every byte string up to 64 (thorough 110) bytes "
+ "C09": dict(text="Bounded model checking of the wire codecs: CompactSize family over all uint64 / all byte strings up to 9 bytes; NewTx on every byte string up to 64 (thorough 84) bytes "
                   "(re-encoding identity, agreement with a transcription of Bitcoin Core's deserialiser in both directions, TxSize, sizes/weight, allocation monitor); NewBlock + BuildTxList on short blocks (header, transaction count, allocation) and the hashing path over two worker packs (txid, wtxid, coinbase marks, sizes, weight); "
                   "every path's assertions decided by z3 for all inputs of that path; counterexamples replayed on the native build.",
              ref="6/C09", note=NOTE),
